@@ -38,6 +38,9 @@ func c11Faults() []faultKind {
 		}},
 		{name: "compare-container-with-its-own-alias", mk: func() Expr { return Bin("==", V("varr"), V("valias")) }},
 		{name: "compare-container-member-with-itself", mk: func() Expr { return Bin("<=", Mem(V("vcyc"), "me"), V("vcyc")) }},
+		{name: "invalid-regex-held-in-a-variable", mk: func() Expr { return Bin("~", S("abc-def"), V("vbadre")) }},
+		{name: "invalid-pattern-string-held-in-a-variable", mk: func() Expr { return Bin("!~", V("vstr"), V("vbadpat")) }},
+		{name: "invalid-regex-returned-by-a-function", mk: func() Expr { return Bin("~", S("abc"), CallE(V("idf"), V("vbadre"), N("0"))) }},
 		{name: "call-null", mk: func() Expr { return CallE(&NullLit{}) }, selfCont: true},
 		{name: "call-number", mk: func() Expr { return CallE(V("vnum"), N("1")) }},
 		{name: "call-string", mk: func() Expr { return CallE(S("s")) }, selfCont: true},
@@ -70,7 +73,7 @@ func c11Setup() []any {
 	rec := &Func{Name: "rec", Params: []string{"n"}, Body: Blk(&Return{X: CallE(V("rec"), Bin("+", V("n"), N("1")))})}
 	idf := &Func{Name: "idf", Params: []string{"p", "q"}, Body: Blk(&Return{X: V("p")})}
 	setup := &Rule{Kind: "BEGIN", Body: Blk(
-		asg(V("vnum"), N("5")), asg(V("vstr"), S("str")), asg(V("vbool"), &BoolLit{V: true}), asg(V("varr"), Arr(N("1"), N("2"))), asg(V("valias"), V("varr")),
+		asg(V("vnum"), N("5")), asg(V("vstr"), S("str")), asg(V("vbool"), &BoolLit{V: true}), asg(V("varr"), Arr(N("1"), N("2"))), asg(V("valias"), V("varr")), asg(V("vbadre"), &RegexLit{Pat: "^[a-c]+-[0-9]+-[z-a]+$"}), asg(V("vbadpat"), S("ab(cd")),
 		asg(V("vcyc"), &ObjectLit{}), asg(Mem(V("vcyc"), "me"), V("vcyc")), Pr(S("early")))}
 	return []any{rec, idf, setup}
 }
@@ -368,6 +371,20 @@ func spliceProgram(rng *rand.Rand, p *Program, sp splice, rd **Rendered, node *a
 		if pos < len(r.Toks) && (r.Toks[pos].Gap == GapStmt || r.Toks[pos].Gap == GapStmtBrace || r.Toks[pos].Gap == GapNoNL) {
 			nt.Gap = GapNoNL
 		}
+		if rng.IntN(4) == 0 {
+			// directly after a statement separator (';' or a line end): the spliced token opens the next statement
+			var starts []int
+			for i, t := range r.Toks {
+				if t.Gap == GapStmt {
+					starts = append(starts, i)
+				}
+			}
+			if len(starts) > 0 {
+				pos = starts[rng.IntN(len(starts))]
+				nt.Gap = GapStmt
+				r.Toks[pos].Gap = GapFree
+			}
+		}
 		r.Toks = append(r.Toks[:pos], append([]Tok{nt}, r.Toks[pos:]...)...)
 		// spans shift: only the spliced token's span is used afterwards
 		r.Spans = map[any][2]int{"splice": {pos, pos}}
@@ -573,7 +590,7 @@ func c11Run(c *Case) {
 func init() {
 	register(&Prop{
 		ID: "C11", Level: "fault_enumeration",
-		Rule:          "fault enumeration. (a) syntax splices: a generated valid host program (starting with BEGIN { print 'early' }) x 25 splice kinds (6 illegal bytes, unmatched ) ] }, lone quote, missing operands, return outside a function, break/continue outside a loop, assignment to a literal / arithmetic result / array literal, unterminated string / regex) inserted at a random token boundary or statement position: outcome must be `syntax` with empty stdout. (b) runtime faults: 33 fault kinds x 35 syntactic positions (every operand slot, prefix operand, callee, call/method argument, array element, object value, index, member base, if/while condition, for initialiser/condition/post, for-in iterable, match subject/body expression/body block, print/printf argument, nested blocks) x 3 contexts (BEGIN; pattern rule on the 2nd of 3 elements; function called from END), plus rule pattern, return value, BEGINFILE, ENDFILE and -r selector placements (the selector alone, after output printed by the same selector, and as second selector after the first was processed); 18 late faults (a printf / arithmetic / index / regex / method site that worked on earlier data and fails on later data, output computed by hand); each planted statement is surrounded by print 'pre' / print 'post'; stdout prefix and `runtime` outcome vs the reference model. Sampled: the same faults planted at random positions of structured programs. Every cell is non-trivial; distinct by (fault, position, context) or program text.",
+		Rule:          "fault enumeration. (a) syntax splices: a generated valid host program (starting with BEGIN { print 'early' }) x 25 splice kinds (6 illegal bytes, unmatched ) ] }, lone quote, missing operands, return outside a function, break/continue outside a loop, assignment to a literal / arithmetic result / array literal, unterminated string / regex) inserted at a random token boundary or statement position: outcome must be `syntax` with empty stdout. (b) runtime faults: 36 fault kinds x 35 syntactic positions (every operand slot, prefix operand, callee, call/method argument, array element, object value, index, member base, if/while condition, for initialiser/condition/post, for-in iterable, match subject/body expression/body block, print/printf argument, nested blocks) x 3 contexts (BEGIN; pattern rule on the 2nd of 3 elements; function called from END), plus rule pattern, return value, BEGINFILE, ENDFILE and -r selector placements (the selector alone, after output printed by the same selector, and as second selector after the first was processed); 18 late faults (a printf / arithmetic / index / regex / method site that worked on earlier data and fails on later data, output computed by hand); each planted statement is surrounded by print 'pre' / print 'post'; stdout prefix and `runtime` outcome vs the reference model. Sampled: the same faults planted at random positions of structured programs. Every cell is non-trivial; distinct by (fault, position, context) or program text.",
 		NumCases:      c11Cases,
 		Run:           c11Run,
 		MinConclusive: func(tier string) int { return 8000 },
